@@ -16,6 +16,15 @@ import (
 
 const verifDir = "/verif"
 
+// outDir: where evidence and replay files go; VERIF_OUT redirects them for self-test runs against scratch copies
+// (the registered commands never set it).
+func outDir() string {
+	if d := os.Getenv("VERIF_OUT"); d != "" {
+		return d
+	}
+	return verifDir
+}
+
 func (e *Engine) collectDynTypes() {
 	seen := map[string]bool{}
 	for _, fn := range e.funcs {
@@ -743,9 +752,9 @@ func (e *Engine) report(prop, tier string, obls []*Obl, encs []*FuncEnc, engineE
 			},
 			"assumptions": append(sortStrings(assumes), globalAssumptions...),
 		}
-		os.MkdirAll(filepath.Join(verifDir, "evidence"), 0o755)
+		os.MkdirAll(filepath.Join(outDir(), "evidence"), 0o755)
 		b, _ := json.MarshalIndent(ev, "", " ")
-		os.WriteFile(filepath.Join(verifDir, "evidence", prop+".json"), b, 0o644)
+		os.WriteFile(filepath.Join(outDir(), "evidence", prop+".json"), b, 0o644)
 	}
 	if len(engineErrs) > 0 {
 		if prop != "" {
